@@ -76,6 +76,9 @@ def pow10 (n : Nat) : Q := ((10 ^ n : Nat) : Int)
 /-- the overflow threshold of float64 rounding: values of this magnitude or more round to ±Inf -/
 def overflowBound : Q := pow2 1024 - pow2 970
 
+/-- values of this magnitude or less round to zero: half of the smallest denormal `2^-1074` (the tie goes to even, i.e. to 0) -/
+def underflowBound : Q := 1 / pow2 1075
+
 def scale (base : Nat) (m : Nat) (e : Int) : Q :=
   if e ≥ 0 then ((m : Int) : Q) * (((base ^ e.toNat : Nat) : Int) : Q)
   else ((m : Int) : Q) / (((base ^ (-e).toNat : Nat) : Int) : Q)
@@ -127,6 +130,7 @@ def finish (neg hex : Bool) (m frac : Nat) (e : Int) : PF :=
     else
       let v := scale (if hex then 2 else 10) m e2
       if v ≥ overflowBound then .bad
+      else if v ≤ underflowBound then .value 0
       else .value (if neg then -v else v)
 
 /-- `strconv.ParseFloat(s, 64)`: acceptance and exact value. -/
